@@ -1,4 +1,273 @@
-import ExoModel.Simplify
+/-
+  C12 — simplify preserves the value of every index expression.
+
+  Model: `ExoModel.Simplify` (literal mirror of `_DoNormalize` + `DoSimplify`).
+  The range analysis enters as an oracle assumed sound (`Oracle.Sound`; C13 proves the analysis).
+
+  The property at full strength is FALSE for the faithful model, for four reasons, each
+  proved below on a concrete witness and replayed on the real code by harness/props/c12.py:
+    * `modulo_simplification` drops `% m` knowing only `e < m`              (finding F2)
+    * the fact table is keyed by printed text: a shadowing name hits it      (finding F14)
+    * `is_quotient_remainder` compares by printed text as well               (found while building C12)
+    * a fact about a config field survives a write to that field             (found while building C12)
+  The `_partial` theorems carry exactly the hypotheses that exclude these: `Oracle.ModNonNeg`
+  (every `e < m` answer comes with `0 ≤ e`), `NoClash` / `Scoped` (no two symbols in scope print alike;
+  no config write inside a then-branch).
+-/
+import ExoModel.Lemmas.SimplifyWitness
+
 namespace Exo.Simplify
-theorem stub : True := trivial
+open Exo (Sym)
+
+/-! ## 1. the linear normal form -/
+
+/-- `get_normalized_expr` + `generate_loopIR`: rewriting an affine expression as
+    `c + k₁·x₁ ± …` (terms sorted by `(coeff, Sym)`) preserves its value — for all expressions, valuations. -/
+theorem normal_form_preserves_value (ρ : Val) (e e' : Expr) (h : normalForm e = some e') :
+    eval ρ e' = eval ρ e :=
+  normalForm_sound ρ e e' h
+
+example : normalForm (.bin .sub (.bin .mul (.const 3) (.bin .sub (.var wi) (.var wn))) (.usub (.var wi)))
+    = some (.bin .add (.bin .sub (.const 0) (.bin .mul (.const 3) (.var wn))) (.bin .mul (.const 4) (.var wi))) := by
+  decide
+
+/-! ## 2. division and modulo rewrites -/
+
+/-- `division_simplification` (all four exits) and the denominator-splitting loop: `lhs / d` is replaced
+    by an expression with the same value, for every valuation the (sound) range oracle speaks about. -/
+theorem division_rewrite_preserves_value (O : Oracle) (P : Val → Prop) (hS : O.Sound P) (ρ : Val) (hρ : P ρ)
+    (lhs : Expr) (d : Int) (hd : 0 < d) (e' : Expr) (h : divSplit O lhs d = some e') :
+    eval ρ e' = eval ρ lhs / d :=
+  divSplit_sound O P hS ρ hρ lhs d hd e' h
+
+/-- `division_denominator_simplification`: `(x / c₁) / c₂ ↦ x / (c₁·c₂)` for positive literals. -/
+theorem denominator_merge_preserves_value (ρ : Val) (x : Expr) (c : Int) (hx : x.WF) :
+    eval ρ (denomLoop x c) = eval ρ x / c :=
+  denomLoop_sound ρ x c hx
+
+example : denomLoop (.bin .div (.bin .div (.var wn) (.const 2)) (.const 3)) 4 = .bin .div (.var wn) (.const 24) := by
+  decide
+
+/-- `modulo_simplification` preserves the value IF every `e < m` answer of the oracle comes with `0 ≤ e`.
+    `_partial`: the code does not check `0 ≤ e` (finding F2); without `hM` the statement is false
+    (`modulo_rewrite_full_false`). -/
+theorem modulo_rewrite_preserves_value_partial (O : Oracle) (P : Val → Prop) (hS : O.Sound P)
+    (hM : O.ModNonNeg P) (ρ : Val) (hρ : P ρ) (lhs : Expr) (m : Int) (hm : 0 < m) (e' : Expr)
+    (h : modSimp O lhs m = some e') : eval ρ e' = eval ρ lhs % m :=
+  modSimp_sound O P hS hM ρ hρ lhs m hm e' h
+
+/-- the statement without `ModNonNeg` is false: sound oracle, `(i - 3) % 8` with `i ∈ [0,4)` becomes `-3 + i`. -/
+theorem modulo_rewrite_full_false :
+    ¬ (∀ (O : Oracle) (P : Val → Prop), O.Sound P → ∀ (ρ : Val), P ρ → ∀ (lhs : Expr) (m : Int), 0 < m →
+        ∀ e', modSimp O lhs m = some e' → eval ρ e' = eval ρ lhs % m) := by
+  intro H
+  have hS : (wOracle wScope).Sound (Reach (fun _ => True) wScope) := wOracle_sound wScope
+  have hR : Reach (fun _ => True) wScope ⟨setSym (fun _ => 0) wi 0, fun _ _ => 0⟩ :=
+    Reach.bind (ρ := ⟨fun _ => 0, fun _ _ => 0⟩) wi (.const 0) (.const 4) 0 (Reach.base trivial) (by decide) (by decide)
+  have := H _ _ hS _ hR (.bin .sub (.var wi) (.const 3)) 8 (by decide) wTarget (by decide)
+  revert this
+  decide
+
+/-- with the missing check added to the query (`fixMod`), `modulo_simplification` is correct outright. -/
+theorem modulo_rewrite_with_nonneg_check (O : Oracle) (P : Val → Prop) (hS : O.Sound P) (ρ : Val) (hρ : P ρ)
+    (lhs : Expr) (m : Int) (hm : 0 < m) (e' : Expr) (h : modSimp (fixMod O) lhs m = some e') :
+    eval ρ e' = eval ρ lhs % m :=
+  modSimp_sound (fixMod O) P (fixMod_sound O P hS) (fixMod_modNonNeg O P hS) ρ hρ lhs m hm e' h
+
+/-! ## 3. constant folding, unit laws, quotient–remainder recombination -/
+
+/-- `cfold` (integer `/` is floor division) and every rule of `map_binop` preserve the value;
+    `is_quotient_remainder` (`N % K + K * (N / K) ↦ N`, compared by printed text) does so when no two
+    symbols of the scope `V` print alike. -/
+theorem map_binop_preserves_value (nodeEq : Expr → Expr → Bool) (hEq : ∀ a b, nodeEq a b = true → a = b)
+    (V : List Sym) (hV : NoClash V) (ρ : Val) (op : Op) (l r e' : Expr) (hl : Over V l) (hr : Over V r)
+    (h : mapBinop nodeEq op l r = some e') : eval ρ e' = evalOp op (eval ρ l) (eval ρ r) :=
+  (mapBinop_sound nodeEq hEq V hV ρ op l r e' hl hr h).1
+
+example : mapBinop noEq .add (.bin .mod (.var wn) (.const 4)) (.bin .mul (.const 4) (.bin .div (.var wn) (.const 4)))
+    = some (.var wn) := by decide
+
+example : mapBinop noEq .div (.const (-7)) (.const 2) = some (.const (-4)) := by decide
+
+/-- mismatched divisors are not recombined -/
+example : mapBinop noEq .add (.bin .mod (.var wn) (.const 4)) (.bin .mul (.const 4) (.bin .div (.var wn) (.const 8)))
+    = some (.bin .add (.bin .mod (.var wn) (.const 4)) (.bin .mul (.const 4) (.bin .div (.var wn) (.const 8)))) := by
+  decide
+
+/-- FALSE without `NoClash`: `i % 4 + 4 * (i' / 4)` with two different symbols both named `i`
+    (what `inline` produces from a callee that uses the same loop name) is recombined to `i`. -/
+theorem quotient_remainder_unscoped_false_same_name :
+    ¬ (∀ (nodeEq : Expr → Expr → Bool), (∀ a b, nodeEq a b = true → a = b) →
+        ∀ (ρ : Val) (op : Op) (l r e' : Expr), mapBinop nodeEq op l r = some e' →
+        eval ρ e' = evalOp op (eval ρ l) (eval ρ r)) := by
+  intro H
+  have := H noEq noEq_ok ⟨fun s => if s = wi then 1 else 5, fun _ _ => 0⟩ .add
+    (.bin .mod (.var wi) (.const 4)) (.bin .mul (.const 4) (.bin .div (.var wi2) (.const 4))) (.var wi) (by decide)
+  revert this
+  decide
+
+/-! ## 4. the fact table -/
+
+/-- a hit in the fact table replaces an expression by one of the same value, provided the facts hold at
+    the valuation and no two symbols in scope print alike. -/
+theorem fact_lookup_preserves_value (V : List Sym) (hV : NoClash V) (ρ : Val) (F : Facts) (hF : FactsOK V ρ F)
+    (e c : Expr) (ho : Over V e) (h : isKnown F e = some c) : eval ρ c = eval ρ e :=
+  (isKnown_sound V hV ρ F hF e c ho h).1
+
+/-- the facts `add_fact` derives from a branch condition hold wherever the condition holds
+    (`X == c`, `c == X`, and `X / M == 0 ⟹ X % M == X`). -/
+theorem add_fact_sound (V : List Sym) (ρ : Val) (F : Facts) (hF : FactsOK V ρ F) (cond : Expr)
+    (ho : Over V cond) (hc : eval ρ cond ≠ 0) : FactsOK V ρ (addFact cond F) :=
+  addFact_ok V ρ F hF cond ho hc
+
+example : isKnown (addFact (.bin .eq (.bin .div (.var wn) (.const 4)) (.const 0)) []) (.bin .mod (.var wn) (.const 4))
+    = some (.var wn) := by decide
+
+/-! ## 5. one expression through the whole pipeline -/
+
+/-- `simplify` on an index / bound / size / condition expression: `_DoNormalize.map_e` then
+    `DoSimplify.map_e` with branch facts `F`.  For ALL expressions, oracles, fact tables, valuations.
+    `_partial`: needs `ModNonNeg` (F2) and `NoClash` (F14); `FactsOK` is the invariant the statement layer
+    maintains (it fails to under a config write, see `simplifyB_unscoped_false_cfg_write`). -/
+theorem simplifyE_preserves_value_partial (O : Oracle) (P : Val → Prop) (hS : O.Sound P) (hM : O.ModNonNeg P)
+    (nodeEq : Expr → Expr → Bool) (hEq : ∀ a b, nodeEq a b = true → a = b)
+    (V : List Sym) (hV : NoClash V) (F : Facts) (ρ : Val) (hρ : P ρ) (hF : FactsOK V ρ F)
+    (e e' : Expr) (hw : e.WF) (ho : Over V e) (h : simplifyE O nodeEq F e = some e') :
+    eval ρ e' = eval ρ e := by
+  unfold simplifyE at h
+  split at h
+  · rename_i e1 h1
+    obtain ⟨a, _⟩ := normE_sound_WF O P hS hM ρ hρ e e1 hw h1
+    have o1 := normE_over V O e e1 ho h1
+    rw [(simpE_sound nodeEq hEq V hV ρ F hF e1 e' o1 h).1, a]
+  · cases h
+
+example : simplifyE (xOracle wScope) noEq (addFact (.bin .eq (.var wn) (.const 4)) [])
+    (.bin .add (.bin .mod (.bin .add (.var wi) (.const 8)) (.const 8)) (.bin .div (.var wn) (.const 2)))
+    = some (.bin .add (.var wi) (.const 2)) := by decide
+
+/-- a branch is removed only if its condition has the same truth value for every admitted valuation -/
+theorem dead_branch_never_taken_partial (O : Oracle) (P : Val → Prop) (hS : O.Sound P) (hM : O.ModNonNeg P)
+    (nodeEq : Expr → Expr → Bool) (hEq : ∀ a b, nodeEq a b = true → a = b)
+    (V : List Sym) (hV : NoClash V) (F : Facts) (ρ : Val) (hρ : P ρ) (hF : FactsOK V ρ F)
+    (c c' : Expr) (hw : c.WF) (ho : Over V c) (h : simplifyE O nodeEq F c = some c') (b : Bool)
+    (hb : constCond c' = some b) : (eval ρ c ≠ 0) ↔ b = true := by
+  rw [← simplifyE_preserves_value_partial O P hS hM nodeEq hEq V hV F ρ hρ hF c c' hw ho h]
+  exact constCond_eval ρ c' b hb
+
+/-- a loop is removed only if its trip count is zero for every admitted valuation -/
+theorem dead_loop_never_runs_partial (O : Oracle) (P : Val → Prop) (hS : O.Sound P) (hM : O.ModNonNeg P)
+    (nodeEq : Expr → Expr → Bool) (hEq : ∀ a b, nodeEq a b = true → a = b)
+    (V : List Sym) (hV : NoClash V) (F : Facts) (ρ : Val) (hρ : P ρ) (hF : FactsOK V ρ F)
+    (lo hi lo' hi' : Expr) (hwl : lo.WF) (hwh : hi.WF) (hol : Over V lo) (hoh : Over V hi)
+    (hl : simplifyE O nodeEq F lo = some lo') (hh : simplifyE O nodeEq F hi = some hi')
+    (hc : constEq lo' hi' = true) : (eval ρ hi - eval ρ lo).toNat = 0 := by
+  have a := simplifyE_preserves_value_partial O P hS hM nodeEq hEq V hV F ρ hρ hF lo lo' hwl hol hl
+  have b := simplifyE_preserves_value_partial O P hS hM nodeEq hEq V hV F ρ hρ hF hi hi' hwh hoh hh
+  have := constEq_eval ρ lo' hi' hc
+  omega
+
+/-! ## 6. whole procedure bodies -/
+
+/-- `simplify` on a procedure body leaves the sequence of observed index tuples (every index of every
+    executed access, allocation size, call argument) and the final configuration unchanged, for every
+    valuation of the arguments in `P`: hence every index/bound/size/condition expression that is evaluated
+    keeps its value, a removed branch is never taken and a removed loop never runs.
+    `_partial`: `hM` excludes F2; `Scoped` excludes name clashes at loop binders (F14) and config writes
+    inside then-branches. -/
+theorem simplifyB_preserves_trace_partial (O : OracleS) (P : Val → Prop)
+    (hS : ∀ sc, (O sc).Sound (Reach P sc)) (hM : ∀ sc, (O sc).ModNonNeg (Reach P sc))
+    (nodeEq : Expr → Expr → Bool) (hEq : ∀ a b, nodeEq a b = true → a = b)
+    (V : List Sym) (hV : NoClash V) (b b2 : Block) (hw : b.WF) (hs : b.Scoped V false)
+    (h : simplifyB O nodeEq b = some b2) (r : Sym → Int) (σ : CfgSt) (hP : P ⟨r, σ⟩) :
+    execB b2 r σ = execB b r σ := by
+  unfold simplifyB at h
+  split at h
+  · rename_i b1 h1
+    have e1 := normB_sound O P hS hM b [] b1 hw h1 r σ (Reach.base hP)
+    have s1 := normB_scoped O V false b [] b1 hs h1
+    simp only [simpB, Option.map_eq_some_iff] at h
+    obtain ⟨b3, h3, rfl⟩ := h
+    rw [execB_orPass, ← e1]
+    refine simpL_sound nodeEq hEq b1 V false [] b3 hV s1 h3 r σ ?_
+    simp only [FInv, Bool.false_eq_true, if_false]
+    intro σ' k v hm; cases hm
+  · cases h
+
+/-- non-vacuity: a program on which the oracle, both passes, the fact table, dead-branch and dead-loop
+    removal all do something, and all hypotheses hold -/
+example : simplifyB xOracle noEq xProg = some
+    (.cons (.loop wi (.const 0) (.const 4)
+      (.cons (.obs [.var wi, .var wi])
+      (.cons (.ite (.bin .eq (.var wn) (.const 4)) (.cons (.obs [.const 1]) .nil) (.cons .pass .nil)) .nil))) .nil) := by
+  decide
+
+example (r : Sym → Int) (σ : CfgSt) (hn : 1 ≤ r wn) (b2 : Block) (h : simplifyB xOracle noEq xProg = some b2) :
+    execB b2 r σ = execB xProg r σ :=
+  simplifyB_preserves_trace_partial xOracle (fun ρ => 1 ≤ ρ.sym wn) xOracle_sound xOracle_modNonNeg noEq noEq_ok
+    [wn] noClash_wn xProg b2 xProg_WF xProg_scoped h r σ hn
+
+/-- FALSE without `ModNonNeg` (finding F2): all other hypotheses hold for
+    `for i in seq(0,4): x[(i - 3) % 8]`, the result is `x[-3 + i]`. -/
+theorem simplifyB_without_nonneg_false :
+    ¬ (∀ (O : OracleS) (P : Val → Prop), (∀ sc, (O sc).Sound (Reach P sc)) →
+        ∀ (nodeEq : Expr → Expr → Bool), (∀ a b, nodeEq a b = true → a = b) →
+        ∀ (V : List Sym), NoClash V → ∀ (b b2 : Block), b.WF → b.Scoped V false →
+        simplifyB O nodeEq b = some b2 → ∀ (r : Sym → Int) (σ : CfgSt), P ⟨r, σ⟩ →
+        execB b2 r σ = execB b r σ) := by
+  intro H
+  have := H wOracle (fun _ => True) wOracle_sound noEq noEq_ok [] (by intro a ha; cases ha)
+    wProgF2 _ wProgF2_WF wProgF2_scoped (by decide :
+      simplifyB wOracle noEq wProgF2 = some (.cons (.loop wi (.const 0) (.const 4)
+        (.cons (.obs [.bin .add (.const (-3)) (.var wi)]) .nil)) .nil)) (fun _ => 0) (fun _ _ => 0) trivial
+  have := congrArg Prod.fst this
+  revert this
+  decide
+
+/-- FALSE without the scoping discipline, witness 1 (finding F14): the oracle never answers, there is no
+    `%`; `if i == 0:` rewrites the inner, shadowing `i` to `0`. -/
+theorem simplifyB_unscoped_false_shadowed_name :
+    ¬ (∀ (O : OracleS) (P : Val → Prop), (∀ sc, (O sc).Sound (Reach P sc)) → (∀ sc, (O sc).ModNonNeg (Reach P sc)) →
+        ∀ (nodeEq : Expr → Expr → Bool), (∀ a b, nodeEq a b = true → a = b) →
+        ∀ (b b2 : Block), b.WF →
+        simplifyB O nodeEq b = some b2 → ∀ (r : Sym → Int) (σ : CfgSt), P ⟨r, σ⟩ →
+        execB b2 r σ = execB b r σ) := by
+  intro H
+  have := H noOracle (fun _ => True) (noOracle_sound _) (noOracle_modNonNeg _) noEq noEq_ok
+    wProgF14 _ wProgF14_WF (by decide :
+      simplifyB noOracle noEq wProgF14 = some (.cons (.loop wi (.const 0) (.const 4)
+        (.cons (.ite (.bin .eq (.var wi) (.const 0))
+          (.cons (.loop wi2 (.const 0) (.const 8) (.cons (.obs [.const 0]) .nil)) .nil) .nil) .nil)) .nil))
+    (fun _ => 0) (fun _ _ => 0) trivial
+  have := congrArg Prod.fst this
+  revert this
+  decide
+
+/-- FALSE without the scoping discipline, witness 2: `if Cfg.a == 3: Cfg.a = 4; x[Cfg.a]` becomes `…; x[3]`. -/
+theorem simplifyB_unscoped_false_cfg_write :
+    ¬ (∀ (O : OracleS) (P : Val → Prop), (∀ sc, (O sc).Sound (Reach P sc)) → (∀ sc, (O sc).ModNonNeg (Reach P sc)) →
+        ∀ (nodeEq : Expr → Expr → Bool), (∀ a b, nodeEq a b = true → a = b) →
+        ∀ (b b2 : Block), b.WF →
+        simplifyB O nodeEq b = some b2 → ∀ (r : Sym → Int) (σ : CfgSt), P ⟨r, σ⟩ →
+        execB b2 r σ = execB b r σ) := by
+  intro H
+  have := H noOracle (fun _ => True) (noOracle_sound _) (noOracle_modNonNeg _) noEq noEq_ok
+    wProgCfg _ wProgCfg_WF (by decide :
+      simplifyB noOracle noEq wProgCfg = some (.cons (.ite (.bin .eq (.cfg "Cfg" "a") (.const 3))
+        (.cons (.wcfg "Cfg" "a" (.const 4)) (.cons (.obs [.const 3]) .nil)) .nil) .nil))
+    (fun _ => 0) (fun _ _ => 3) trivial
+  have := congrArg Prod.fst this
+  revert this
+  decide
+
+/-- with the `0 ≤ e` check added to the modulo query, only the scoping hypotheses remain -/
+theorem simplifyB_with_nonneg_check_preserves_trace (O : OracleS) (P : Val → Prop)
+    (hS : ∀ sc, (O sc).Sound (Reach P sc))
+    (nodeEq : Expr → Expr → Bool) (hEq : ∀ a b, nodeEq a b = true → a = b)
+    (V : List Sym) (hV : NoClash V) (b b2 : Block) (hw : b.WF) (hs : b.Scoped V false)
+    (h : simplifyB (fun sc => fixMod (O sc)) nodeEq b = some b2) (r : Sym → Int) (σ : CfgSt) (hP : P ⟨r, σ⟩) :
+    execB b2 r σ = execB b r σ :=
+  simplifyB_preserves_trace_partial (fun sc => fixMod (O sc)) P (fun sc => fixMod_sound _ _ (hS sc))
+    (fun sc => fixMod_modNonNeg _ _ (hS sc)) nodeEq hEq V hV b b2 hw hs h r σ hP
+
 end Exo.Simplify
